@@ -58,9 +58,10 @@ type Facts struct {
 	LenNext  int  `json:"lenNext"`
 	Plain    bool `json:"plain"`
 	// not read by the spec
-	Esc  bool `json:"esc"`  // some name or string of the reply needs an escape sequence in text form
-	Wire hx.B `json:"wire"` // the reply before Truncate, packed uncompressed (replayable input)
-	Comp bool `json:"comp"`
+	Esc  bool   `json:"esc"`            // some name or string of the reply needs an escape sequence in text form
+	Wire hx.B   `json:"wire,omitempty"` // random replies: the reply before Truncate, packed uncompressed (replayable input)
+	Case *vcase `json:"case,omitempty"` // enumerated cases: the vector itself (replayable input)
+	Comp bool   `json:"comp"`
 }
 
 var filler = strings.Repeat("x", 250)
@@ -193,6 +194,8 @@ func plain(m *dns.Msg) bool {
 }
 
 // measure runs the real Truncate on m and returns the facts.
+var keepWire = false
+
 func measure(m *dns.Msg, size int) Facts {
 	var f Facts
 	f.Size = size
@@ -208,8 +211,10 @@ func measure(m *dns.Msg, size int) Facts {
 	f.Esc = strings.Contains(m.String(), "\\")
 	f.LenFit = packLen(orig, true)
 	f.Comp = m.Compress
-	if w, err := func() ([]byte, error) { c := orig.Copy(); c.Compress = false; return c.Pack() }(); err == nil {
-		f.Wire = hx.FromBytes(w)
+	if keepWire {
+		if w, err := func() ([]byte, error) { c := orig.Copy(); c.Compress = false; return c.Pack() }(); err == nil && len(w) <= 4096 {
+			f.Wire = hx.FromBytes(w)
+		}
 	}
 
 	m.Truncate(size)
@@ -309,6 +314,7 @@ func main() {
 			m := build(c)
 			size := resolve(c, m)
 			f := measure(m, size)
+			f.Case = c
 			w.Emit(f)
 			sum.Evaluations++
 			if f.AAn < f.NAn || f.ANs < f.NNs || f.AAr < f.NAr {
@@ -321,6 +327,7 @@ func main() {
 		w.Close()
 		sum.Nontrivial = len(seen)
 	case "record":
+		keepWire = true
 		n, _ := strconv.Atoi(os.Args[3])
 		record(os.Args[2], n, &sum)
 	case "one":
@@ -332,11 +339,19 @@ func main() {
 		if err := json.Unmarshal(b, &f); err != nil {
 			hx.Die("%v", err)
 		}
-		m := new(dns.Msg)
-		if err := m.Unpack(f.Wire.Bytes()); err != nil {
-			hx.Die("unpack of the stored reply: %v", err)
+		var m *dns.Msg
+		if f.Case != nil {
+			m = build(f.Case)
+		} else {
+			if len(f.Wire) == 0 {
+				hx.Die("the stored case carries neither the vector nor the reply octets (reply larger than 4096 octets): re-run the check with the same seed")
+			}
+			m = new(dns.Msg)
+			if err := m.Unpack(f.Wire.Bytes()); err != nil {
+				hx.Die("unpack of the stored reply: %v", err)
+			}
+			m.Compress = f.Comp
 		}
-		m.Compress = f.Comp
 		w := hx.NewWriter(os.Args[3])
 		w.Emit(measure(m, f.Size))
 		w.Close()
